@@ -161,6 +161,7 @@ func Guard(out *Outcome, fn func()) {
 			if he, ok := r.(*mcrt.HorizonError); ok {
 				out.Horizon = true
 				out.HorizonSite = he.Site
+				mcrt.Cur.Steps = 0
 				return
 			}
 			out.Panic = fmt.Sprint(r)
@@ -197,6 +198,10 @@ func innermostFrame() string {
 
 // LoadSwagger decodes a document into the spec model.
 func LoadSwagger(doc string) (*spec.Swagger, error) {
+	// loading is not the code under test: it does not count against the step horizon
+	saved := mcrt.Cur.Horizon
+	mcrt.Cur.Horizon = 0
+	defer func() { mcrt.Cur.Horizon = saved }()
 	sw := new(spec.Swagger)
 	if err := json.Unmarshal([]byte(doc), sw); err != nil {
 		return nil, err
@@ -206,6 +211,9 @@ func LoadSwagger(doc string) (*spec.Swagger, error) {
 
 // Marshal serializes the spec model (canonical: encoding/json sorts map keys).
 func Marshal(v any) []byte {
+	saved := mcrt.Cur.Horizon
+	mcrt.Cur.Horizon = 0
+	defer func() { mcrt.Cur.Horizon = saved }()
 	b, err := json.Marshal(v)
 	if err != nil {
 		return []byte("MARSHAL-ERROR: " + err.Error())
